@@ -81,7 +81,9 @@ impl Prop for C12 {
             faults: false,
             data: true,
         };
+        wild::CSR_TRAFFIC.store(true, std::sync::atomic::Ordering::Relaxed);
         let (lines, info) = wild::program(ch, &o);
+        wild::CSR_TRAFFIC.store(false, std::sync::atomic::Ordering::Relaxed);
         let n = ch.below(7);
         let extra = (0..n)
             .map(|_| match ch.below(3) {
@@ -121,7 +123,9 @@ impl Prop for C12 {
             Err(p) if p.is_sweep_limit() => {
                 out.push(
                     Violation::new(format!("the analysis did not reach a fixed point within 20000 sweeps\n{text}"))
-                        .with("what", "no-fixed-point"),
+                        .with("what", "no-fixed-point")
+                        // stores and loads through a pointer swapped with uscratch, inside a loop
+                        .with("csr_pointer_traffic", if text.contains("uscratch") { "yes" } else { "no" }),
                 );
                 return out;
             }
